@@ -231,6 +231,11 @@ def r05_3(chk, dx):
     chk.saw(DX, "interp_f")
     chk.saw(DX, "interp_f_one")
     results = {}
+    xs = kb.param_names[0]
+    pl = [l for l in kb.all_loops if l.kind == "range"]
+    chk.ob("R05.3", DX, "interp_f", "the batch kernel fills one output value per abscissa: its loop runs over 0 .. x.shape[0]", len(pl) == 1 and
+           pl[0].lo == P.const(0) and pl[0].hi is not None and pl[0].hi.key() == f"{xs}.shape[0]", fingerprint="batch:all-abscissae",
+           found=[f"[{l.lo}, {l.hi})" for l in pl])
     for name, ev, store in (("interp_f", kb, True), ("interp_f_one", ks, False)):
         defs = {k[1]: v for k, v in ev.defs.items()}
         x = P.atom(("sub", P.name("x"), (ev.all_loops[0].index,))) if store else P.name("x")
@@ -315,12 +320,21 @@ def r05_45(chk, dx):
         chk.ob("R05.5", DX, q, "the atom loop covers every atom and the point loops every point",
                e.loops[0].hi.key() == "self.positions.shape[0]" and e.loops[1].hi.key() == "pts.shape[0]" and e.loops[0].lo == P.const(0),
                found=f"{e.loops[0].hi} / {e.loops[1].hi}")
+        # ... also the loop that adds the atom's contribution, and the three work arrays have one entry per point
+        chk.ob("R05.5", DX, q, "the accumulation runs over every point (0 .. number of points)", len(acc) == 1 and acc[0].loops[-1].lo == P.const(0)
+               and acc[0].loops[-1].hi is not None and acc[0].loops[-1].hi.key() == "pts.shape[0]", fingerprint="accumulate-all-points",
+               found=f"[{acc[0].loops[-1].lo}, {acc[0].loops[-1].hi})" if acc else None)
         rv = dx.ev("PromoleculeDensity.rho")
         zeros = [x.value for x in rv.events if x.kind == "assign" and x.name == "rho" and "numpy.zeros" in x.value.key()]
         ecall = [x for x in rv.events if x.kind == "call" and call_name(x.value.as_atom() or ()) == ".evaluate_rho"]
         okz = bool(zeros) and bool(ecall) and len(ecall[0].extra["args"]) == 4 and ecall[0].extra["args"][1].key() == zeros[0].key() \
             and rv.returns[-1].value.key() == zeros[0].key() and ecall[0].extra["args"][0].key() == rv.param_names[1]
         chk.ob("R05.5", DX, "PromoleculeDensity.rho", "the accumulator starts at zero and is what gets returned", okz)
+        npts_ = f"{rv.param_names[1]}.shape[0]"
+        sizes = [x.value.as_atom()[3].as_atom()[2][0].key() if x.value.as_atom() and x.value.as_atom()[0] == "obj" else x.value.as_atom()[2][0].key()
+                 for x in rv.events if x.kind == "assign" and x.value is not None and ("numpy.zeros(" in x.value.key() or "numpy.empty(" in x.value.key())]
+        chk.ob("R05.5", DX, "PromoleculeDensity.rho", "the result and the work arrays have one entry per point", len(sizes) >= 1 and all(z == npts_ for z in sizes),
+               fingerprint="one-entry-per-point", expected=npts_, found=sizes)
     q = "PromoleculeDensity.one_rho"
     ev = dx.ev(q, opaque={"r"})
     chk.saw(DX, q)
@@ -347,6 +361,9 @@ def r05_45(chk, dx):
                a[0].as_atom() is not None and a[0].as_atom()[0] == "local" and a[1].key() == "self.domain" and a[2].key() == f"self.rho_data[{i}]",
                fingerprint="single:args", found=[str(x) for x in a])
     if chk.want("R05.5"):
+        nloop = [l for l in ev.all_loops if l.kind == "range"][0]
+        chk.ob("R05.5", DX, q, "the single-point sum runs over every atom", nloop.lo == P.const(0) and nloop.hi is not None and nloop.hi.key() == "self.positions.shape[0]",
+               fingerprint="single:all-atoms", found=f"[{nloop.lo}, {nloop.hi})")
         acc = [x for x in ev.events if x.kind == "assign" and x.name == "rho" and x.extra.get("aug") == "Add"]
         chk.ob("R05.5", DX, q, "the single-point density is the sum over atoms of the interpolated values, starting from zero",
                len(acc) == 1 and acc[0].extra["delta"].key() == call[0].value.key() and acc[0].extra["old"].as_atom()[3] == P.const(0),
